@@ -308,10 +308,13 @@ def main():
         n4 = 0
         for (q, rule, fk), info in sorted(per.items()):
             n4 += 1
-            if len(info["cfgs"]) < len(names):
+            # only configurations in which this rule judges anything count as "holds there"
+            applicable = {c["config"] for c in okc if c["props"].get(q, {}).get("counts", {}).get(rule, 0) > 0}
+            holds_in = applicable - info["cfgs"]
+            if holds_in:
                 v = info["v"]
                 viols.append({"rule": "C19-R4", "key": "%s|%s|%s" % (q, rule, fk), "detail": "rule %s of %s fails only in configuration(s) %s and holds in %s: behaviour differs between features/profiles. %s" % (
-                    rule, q, sorted(info["cfgs"]), sorted(set(names) - info["cfgs"]), v["detail"][:300]), "where": v["where"], "config": ",".join(sorted(info["cfgs"]))})
+                    rule, q, sorted(info["cfgs"]), sorted(holds_in), v["detail"][:300]), "where": v["where"], "config": ",".join(sorted(info["cfgs"]))})
         counts["C19-R4"] = counts.get("C19-R4", 0) + sum(sum(pr["counts"].values()) for c in okc for q, pr in c["props"].items() if q != "C19")
         # count-delta between configurations that differ only in debug assertions
         byf = {}
